@@ -47,6 +47,10 @@ def l2_effects(tree, rep):
     # module-level helpers of the form packages
     cat = an.cat
     helpers = 0
+    # building an input / line / mapping object is not an effect: the classes of the core modules may be instantiated
+    core_classes = set()
+    for crel in ('habutax/inputs.py', 'habutax/fields.py', 'habutax/pdf_fields.py'):
+        core_classes |= {c.name for c in ast.walk(tree.module(crel)) if isinstance(c, ast.ClassDef)}
     for y in cat.years:
         for rel in tree.form_modules(y):
             mod = tree.module(rel)
@@ -64,7 +68,7 @@ def l2_effects(tree, rep):
                         f = x.func
                         nm = f.id if isinstance(f, ast.Name) else None
                         local_fns = {z.name for z in mod.body if isinstance(z, ast.FunctionDef)}
-                        if nm is not None and nm not in PURE_BUILTINS and nm not in local_fns:
+                        if nm is not None and nm not in PURE_BUILTINS and nm not in local_fns and nm not in core_classes:
                             bad.append(f'call of {nm}()')
                         if isinstance(f, ast.Attribute) and f.attr in ('append', 'extend', 'update', 'pop', 'clear', 'write', 'add'):
                             bad.append(f'mutating call .{f.attr}()')
